@@ -119,18 +119,22 @@ type mVariant struct {
 	Name  string
 	Style string
 	Opts  map[string]bool // template-data; absent key = unset
+	Level string          // "" = root-level template-data; "interface" = given in the interface's config only
 }
 
 var mVariants = []mVariant{
-	{"testify-default", "testify", map[string]bool{}},
-	{"testify-unroll-false", "testify", map[string]bool{"unroll-variadic": false}},
-	{"testify-unroll-true", "testify", map[string]bool{"unroll-variadic": true}},
-	{"matryer-plain", "matryer", map[string]bool{}},
-	{"matryer-stub", "matryer", map[string]bool{"stub-impl": true}},
-	{"matryer-resets", "matryer", map[string]bool{"with-resets": true}},
-	{"matryer-stub-resets", "matryer", map[string]bool{"stub-impl": true, "with-resets": true}},
-	{"matryer-skipensure-resets", "matryer", map[string]bool{"skip-ensure": true, "with-resets": true}},
-	{"matryer-all", "matryer", map[string]bool{"skip-ensure": true, "stub-impl": true, "with-resets": true}},
+	{"testify-default", "testify", map[string]bool{}, ""},
+	{"testify-unroll-false", "testify", map[string]bool{"unroll-variadic": false}, ""},
+	{"testify-unroll-true", "testify", map[string]bool{"unroll-variadic": true}, ""},
+	{"matryer-plain", "matryer", map[string]bool{}, ""},
+	{"matryer-stub", "matryer", map[string]bool{"stub-impl": true}, ""},
+	{"matryer-resets", "matryer", map[string]bool{"with-resets": true}, ""},
+	{"matryer-stub-resets", "matryer", map[string]bool{"stub-impl": true, "with-resets": true}, ""},
+	{"matryer-skipensure-resets", "matryer", map[string]bool{"skip-ensure": true, "with-resets": true}, ""},
+	{"matryer-all", "matryer", map[string]bool{"skip-ensure": true, "stub-impl": true, "with-resets": true}, ""},
+	// the same options given at the interface level only (they must resolve through the hierarchy)
+	{"testify-unroll-true@iface", "testify", map[string]bool{"unroll-variadic": true}, "interface"},
+	{"matryer-stub-resets@iface", "matryer", map[string]bool{"stub-impl": true, "with-resets": true}, "interface"},
 }
 
 type mUnit struct {
@@ -194,7 +198,7 @@ func mPrepare(c *core.Ctx) {
 	os.WriteFile(filepath.Join(e.dir, "go.sum"), []byte(world.GoSum), 0o644)
 	for _, v := range mVariants {
 		for _, ifc := range mIfaces {
-			u := &mUnit{Iface: ifc, Variant: v, Pkg: strings.ReplaceAll(v.Name, "-", "_") + "_" + strings.ToLower(ifc.Name)}
+			u := &mUnit{Iface: ifc, Variant: v, Pkg: strings.NewReplacer("-", "_", "@", "_at_").Replace(v.Name) + "_" + strings.ToLower(ifc.Name)}
 			e.units = append(e.units, u)
 		}
 	}
@@ -203,14 +207,19 @@ func mPrepare(c *core.Ctx) {
 		cfg := world.NewY()
 		cfg.Set("template", u.Variant.Style).Set("formatter", "goimports").Set("force-file-write", true)
 		cfg.Set("dir", "gen/"+u.Pkg).Set("filename", "mocks.go").Set("pkgname", u.Pkg)
+		ic := world.NewY()
 		if len(u.Variant.Opts) > 0 {
 			td := world.NewY()
 			for _, k := range core.SortedKeys(u.Variant.Opts) {
 				td.Set(k, u.Variant.Opts[k])
 			}
-			cfg.Set("template-data", td)
+			if u.Variant.Level == "interface" {
+				ic.Sub("config").Set("template-data", td)
+			} else {
+				cfg.Set("template-data", td)
+			}
 		}
-		cfg.Sub("packages").Sub(mMod + "/corpus").Sub("interfaces").Set(u.Iface.Name, world.NewY())
+		cfg.Sub("packages").Sub(mMod + "/corpus").Sub("interfaces").Set(u.Iface.Name, ic)
 		cfgPath := filepath.Join(e.dir, "cfg-"+u.Pkg+".yml")
 		os.WriteFile(cfgPath, []byte(cfg.String()), 0o644)
 		st := world.Step{Args: []string{"--config", cfgPath}, Plan: world.Plan("asc", 1, 0, 2022, 4242)}
